@@ -192,8 +192,40 @@ InitPL0 ==
        IN /\ st = IF haspl THEN WithPL(s0, base) ELSE s0
           /\ ev = [PLEv([SetKey(base, k, n) EXCEPT !.baduser = bad, !.users["creator"] = cu]) EXCEPT !.sender = sender]
 
+\* ---- versions: every version-sensitive rule, for ALL registered versions (also in the quick tier) ----------
+InitVersionEdges ==
+    LET joined == WithMem(WithMem(BaseSt, "bob", "join"), "creator", "join")
+        withLevels(s0, bobLevel) == WithPL(s0, [EmptyPL EXCEPT !.users = [u \in Users |-> IF u = "bob" THEN bobLevel ELSE IF u = "creator" THEN 4 ELSE Absent]])
+    IN
+    \/ \E red \in {"own_domain", "other_domain", "nocolon"}, lvl \in {2, 3} :       \* rule 11 only in v1 / v2
+          /\ st = withLevels(joined, lvl)
+          /\ ev = [BaseEv EXCEPT !.type = "redaction", !.sender = "bob", !.redacts = red]
+    \/ \E jr \in {"knock", "knock_restricted", "invite"}, old \in {"absent", "invite", "leave", "knock"} :   \* knocking: v7+
+          /\ st = [WithMem(joined, "alice", old) EXCEPT !.jr = jr]
+          /\ ev = MemberEv("alice", "alice", "knock")
+    \/ \E jr \in {"restricted", "knock_restricted"}, via \in {"none", "creator"}, old \in {"absent", "invite"} :   \* restricted joins: v8+
+          /\ st = [WithMem(joined, "alice", old) EXCEPT !.jr = jr]
+          /\ ev = [MemberEv("alice", "alice", "join") EXCEPT !.authvia = via]
+    \/ \E sp \in {"int", "str", "float"}, n \in {2, 4} :                                \* integer-only levels: v10+
+          /\ st = withLevels(joined, 3)
+          /\ ev = [PLEv([[EmptyPL EXCEPT !.users = [u \in Users |-> IF u = "bob" THEN 3 ELSE IF u = "creator" THEN 4 ELSE Absent]]
+                             EXCEPT !.kick = n, !.spk = IF sp = "int" THEN "" ELSE "kick", !.spkind = sp]) EXCEPT !.sender = "bob"]
+    \/ \E o \in {Absent, 4}, n \in {Absent, 2, 4} :                                      \* notification levels: v6+
+          /\ o # n
+          /\ st = WithPL(joined, [EmptyPL EXCEPT !.users = [u \in Users |-> IF u = "bob" THEN 3 ELSE Absent], !.notif = [k \in NKeys |-> IF k = "here" THEN o ELSE Absent]])
+          /\ ev = [PLEv([EmptyPL EXCEPT !.users = [u \in Users |-> IF u = "bob" THEN 3 ELSE Absent], !.notif = [k \in NKeys |-> IF k = "here" THEN n ELSE Absent]]) EXCEPT !.sender = "bob"]
+    \/ \E cr \in BOOLEAN, rv \in {"own", "unknown"}, rid \in BOOLEAN, addl \in {"none", "invalid"} :   \* create rules per version
+          /\ st = [BaseSt EXCEPT !.create.present = FALSE]
+          /\ ev = [BaseEv EXCEPT !.type = "create", !.sender = "creator", !.skey = "empty", !.c_creator = cr, !.c_rv = rv, !.c_roomid = rid, !.c_addl = addl]
+    \/ \E named \in {"creator", "bob"}, sender \in {"creator", "bob"} :                    \* creators in the users map: v12
+          /\ st = [withLevels(joined, 4) EXCEPT !.pl.c.users["creator"] = IF PrivilegedCreators(ver) THEN Absent ELSE 4]
+          /\ ev = [PLEv([st.pl.c EXCEPT !.users[named] = 4, !.invite = 2]) EXCEPT !.sender = sender]
+    \/ \E sk \in {"server_self", "self", "server_other"} :                                   \* aliases (pseudo IDs differ)
+          /\ st = joined
+          /\ ev = [BaseEv EXCEPT !.type = "aliases", !.sender = "bob", !.skey = sk]
+
 Init ==
-    /\ ver \in Versions
+    /\ ver \in (IF Family = "versions" THEN AllVersions ELSE Versions)
     /\ phase = "scenario" /\ verdict = FALSE /\ noesc = TRUE
     /\ CASE Family = "member_self" -> InitMemberSelf
          [] Family = "member_restricted" -> InitMemberRestricted
@@ -202,6 +234,7 @@ Init ==
          [] Family = "structure" -> InitStructure
          [] Family = "generic" -> InitGeneric
          [] Family = "create" -> InitCreate
+         [] Family = "versions" -> InitVersionEdges
          [] Family = "pl0" -> InitPL0
          [] Family = "pl1" -> InitPL1
          [] Family = "pl2" -> InitPL2
